@@ -12,9 +12,13 @@
             C05_read_never_fails  (no CMissing result in any reachable state, unconditionally),
             C05_read_returns_indexed_content, C05_lookup_step, C05_retry_sees_current
             (full linearizability of reads is NOT claimed)
+            no_faults_no_errors  (without faults no call returns CErr)
      C07  exactness of the blob directory at quiescence
-            C07_quiescent_exact
-*)
+            C07_nothing_less (unconditional), C07_quiescent_exact (no obstructed path, or no
+            call returned an error), C07_quiescent_exact_nofaults
+
+   Faults: everything here holds for ARBITRARY fault parameters bad / ckbad of the model, except
+   where a hypothesis says otherwise (C07_quiescent_exact, no_faults_no_errors). *)
 From Cas Require Import Base Codec SMap Index Conc.
 From CasProofs Require Import SMapProofs IndexProofs ConcInv.
 From Coq Require Import List NArith Lia Bool Arith.
@@ -46,7 +50,7 @@ Definition holds (p : pc) : list lockname :=
 (* locks acquired by the step that leaves p (shared acquisitions of S included) *)
 Definition acquires (p : pc) : list lockname :=
   match p with
-  | PILock _ _ | WLockI _ | OLockI (_ :: _) _ _ => [LI]
+  | PILock _ _ | PDropI _ _ _ | WLockI _ | OLockI (_ :: _) _ _ => [LI]
   | WLockS _ | WCkS _ _ | RRead _ | RRRead _ _ | GRead _ _ | GReread _ _ | ORead _ _ _ _ => [LS]
   | WLockW _ | WCkW _ _ => [LW]
   | _ => []
@@ -82,6 +86,8 @@ Section ConcProofs.
   Hypothesis cmp_antisym : forall a b, cmp b a = CompOpp (cmp a b).
   Hypothesis cmp_trans : forall a b c, cmp a b = Lt -> cmp b c = Lt -> cmp a c = Lt.
   Variable nops : N.
+  Variable bad : bytes -> bool.
+  Variable ckbad : bool.
   Variable thr0 : list (nat * list ccall).
   Hypothesis thr0_nodup : NoDup (map fst thr0).
   Variable cas0 : smap bytes.
@@ -91,9 +97,9 @@ Section ConcProofs.
     forall a b, In a (allc thr0 cas0) -> In b (allc thr0 cas0) -> H a = H b -> a = b.
 
   Local Notation KX L := (L cmp cmp_refl cmp_eq cmp_antisym cmp_trans) (only parsing).
-  Local Notation Inv := (ConcInv H cmp thr0 cas0).
-  Local Notation Reach := (reachable H cmp nops thr0 cas0).
-  Local Notation step := (cstep H cmp nops).
+  Local Notation Inv := (ConcInv H cmp bad thr0 cas0).
+  Local Notation Reach := (reachable H cmp nops bad ckbad thr0 cas0).
+  Local Notation step := (cstep H cmp nops bad ckbad).
 
   Lemma rinv g : Reach g -> Inv g.
   Proof using cmp_refl cmp_eq cmp_antisym cmp_trans thr0_nodup cas0_sorted cas0_named NoCollideC.
@@ -108,8 +114,8 @@ Section ConcProofs.
     exists c, sm_get lex_cmp (g_cas g) (ihash it) = Some c /\ H c = ihash it /\ len c = isize it.
   Proof using cmp_refl cmp_eq cmp_antisym cmp_trans thr0_nodup cas0_sorted cas0_named NoCollideC.
     intros R k it G. pose proof (rinv g R) as I.
-    apply (KX get_in) in G; [|apply (ci_idx _ _ _ _ _ I)].
-    apply (ci_nodangling _ _ _ _ _ I _ _ G).
+    apply (KX get_in) in G; [|apply (ci_idx _ _ _ _ _ _ I)].
+    apply (ci_nodangling _ _ _ _ _ _ I _ _ G).
   Qed.
 
   (* after its rename and before its apply, a commit has its blob and the blob is protected *)
@@ -119,7 +125,7 @@ Section ConcProofs.
     sm_get lex_cmp (g_byhash g) h <> None.
   Proof using cmp_refl cmp_eq cmp_antisym cmp_trans thr0_nodup cas0_sorted cas0_named NoCollideC.
     intros R Ht W. pose proof (rinv g R) as I.
-    destruct (ci_pc _ _ _ _ _ I _ _ Ht) as [Pt _]. split.
+    destruct (ci_pc _ _ _ _ _ _ I _ _ Ht) as [Pt _]. split.
     - destruct W as [E|[E|E]]; rewrite E in Pt; exact Pt.
     - eapply registered_protected; [exact I|exact Ht|].
       destruct W as [E|[E|E]]; rewrite E; cbn [reg]; apply beqb_refl.
@@ -128,7 +134,7 @@ Section ConcProofs.
   (* the effect of a step on the blob directory *)
   Lemma cstep_cas g t g' : step g t = Some g' ->
     g_cas g' = g_cas g \/
-    (exists ts k c, tget (g_thr g) t = Some ts /\ t_pc ts = PRen k c /\
+    (exists ts k c repl, tget (g_thr g) t = Some ts /\ t_pc ts = PRen k c repl /\
                     g_cas g' = sm_ins lex_cmp (g_cas g) (H c) c) \/
     (exists ts h, tget (g_thr g) t = Some ts /\ unlinking (t_pc ts) h /\
                   g_cas g' = sm_del lex_cmp (g_cas g) h).
@@ -139,13 +145,17 @@ Section ConcProofs.
                           | |- (match ?x with _ => _ end = _) -> _ => destruct x
                           end); try discriminate; intros E; injection E as <-; left; reflexivity]).
     - (* PRen *)
-      intros E; injection E as <-. right; left. exists ts, k, c.
+      destruct (bad (H c)); intros E; injection E as <-; [left; reflexivity|].
+      right; left. exists ts, k, c, repl.
       split; [reflexivity|split; [exact Hpc|reflexivity]].
     - (* WUnlink *)
       destruct todo as [|h rest]; [discriminate|].
+      destruct (bad h); [intros E; injection E as <-; left; reflexivity|].
       destruct rest; intros E; injection E as <-; right; right; exists ts, h;
         (split; [reflexivity|split; [rewrite Hpc; reflexivity|reflexivity]]).
     - (* OUnlink *)
+      destruct (bad h);
+        [cbn beta iota zeta; destruct todo; intros E; injection E as <-; left; reflexivity|].
       destruct (sm_get lex_cmp (g_cas g) h) eqn:G; cbn beta iota zeta;
         destruct todo; intros E; injection E as <-.
       + right; right. exists ts, h. split; [reflexivity|split; [rewrite Hpc; reflexivity|reflexivity]].
@@ -154,18 +164,40 @@ Section ConcProofs.
       + left; reflexivity.
   Qed.
 
-  (* the key map changes only in the WLockW step (append + apply) of a writer *)
+  (* two index states that differ at most in last_persisted_version *)
+  Definition same_content (i i' : istate) : Prop :=
+    km i' = km i /\ rc i' = rc i /\ ub i' = ub i /\ tb i' = tb i /\ ssz i' = ssz i.
+
+  (* the key map (and the refcounts and the statistics) change only in the WLockW step (append +
+     apply) of a writer; a checkpoint (WCkW) records the persisted version, nothing else *)
   Lemma cstep_km g t g' : step g t = Some g' ->
-    g_idx g' = g_idx g \/ exists ts w, tget (g_thr g) t = Some ts /\ t_pc ts = WLockW w.
+    same_content (g_idx g) (g_idx g') \/
+    exists ts w, tget (g_thr g) t = Some ts /\ t_pc ts = WLockW w.
+  Proof using.
+    unfold cstep. destruct (tget (g_thr g) t) as [ts|] eqn:Ht; [|discriminate].
+    destruct (t_pc ts) eqn:Hpc;
+      try (solve [cbn zeta;
+                  repeat (match goal with
+                          | |- (match ?x with _ => _ end = _) -> _ => destruct x
+                          end); try discriminate; intros E; injection E as <-; left;
+                  repeat split; reflexivity]).
+    intros _. right. exists ts, w. split; [reflexivity|exact Hpc].
+  Qed.
+
+  (* the index itself changes only in WLockW and WCkW steps *)
+  Lemma cstep_idx g t g' : step g t = Some g' ->
+    g_idx g' = g_idx g \/
+    exists ts, tget (g_thr g) t = Some ts /\
+               ((exists w, t_pc ts = WLockW w) \/ (exists r e, t_pc ts = WCkW r e)).
   Proof using.
     unfold cstep. destruct (tget (g_thr g) t) as [ts|] eqn:Ht; [|discriminate].
     destruct (t_pc ts) eqn:Hpc;
       try (solve [repeat (match goal with
                           | |- (match ?x with _ => _ end = _) -> _ => destruct x
                           end); try discriminate; intros E; injection E as <-; left; reflexivity]).
-    intros _. right. exists ts, w. split; [reflexivity|exact Hpc].
+    - intros _. right. exists ts. split; [reflexivity|]. left. eexists. exact Hpc.
+    - intros _. right. exists ts. split; [reflexivity|]. right. eexists _, _. exact Hpc.
   Qed.
-
 
   (* no step removes a blob that a key references or that an in-flight commit needs *)
   Theorem C04_never_deletes_protected g t g' : Reach g -> step g t = Some g' ->
@@ -173,15 +205,15 @@ Section ConcProofs.
     count_refs (km (g_idx g)) h = 0 /\ sm_get lex_cmp (g_byhash g) h = None.
   Proof using cmp_refl cmp_eq cmp_antisym cmp_trans thr0_nodup cas0_sorted cas0_named NoCollideC.
     intros R St h H1 H2. pose proof (rinv g R) as I.
-    pose proof (ci_cas_sorted _ _ _ _ _ I) as S.
-    destruct (cstep_cas _ _ _ St) as [E|[(ts & k & c & Ht & Hpc & E)|(ts & x & Ht & Hu & E)]];
+    pose proof (ci_cas_sorted _ _ _ _ _ _ I) as S.
+    destruct (cstep_cas _ _ _ St) as [E|[(ts & k & c & repl & Ht & Hpc & E)|(ts & x & Ht & Hu & E)]];
       rewrite E in H2.
     - contradiction.
     - exfalso. destruct (key_eq_dec h (H c)) as [->|N].
       + rewrite lex_get_ins_same in H2. discriminate.
       + rewrite lex_get_ins_other in H2 by assumption. contradiction.
     - destruct (key_eq_dec h x) as [->|N].
-      + destruct (ci_pc _ _ _ _ _ I _ _ Ht) as [Pt _].
+      + destruct (ci_pc _ _ _ _ _ _ I _ _ Ht) as [Pt _].
         destruct (t_pc ts); cbn [unlinking] in Hu; try contradiction.
         * destruct todo as [|y rest]; [contradiction|]. subst y. cbn [pc_ok] in Pt.
           apply Pt. left; reflexivity.
@@ -202,7 +234,7 @@ Section ConcProofs.
     - eapply holder_S; [exact I|exact Ht|rewrite Hpc; reflexivity].
     - assert (Hresp : op_respects_sizes (g_idx g) (wop w)).
       { eapply window_respects; [exact I|exact Ht|right; right; exact Hpc]. }
-      destruct (KX C12_apply_ok (g_idx g) (wop w) (ci_idx _ _ _ _ _ I) Hresp) as (s' & un & E & _).
+      destruct (KX C12_apply_ok (g_idx g) (wop w) (ci_idx _ _ _ _ _ _ I) Hresp) as (s' & un & E & _).
       exists s', un. exact E.
   Qed.
 
@@ -230,7 +262,7 @@ Section ConcProofs.
   (* an exclusive holder of S and shared holders never coexist *)
   Theorem S_excludes_readers g : Reach g -> ~ (g_S g <> None /\ g_R g <> []).
   Proof using cmp_refl cmp_eq cmp_antisym cmp_trans thr0_nodup cas0_sorted cas0_named NoCollideC.
-    intros R [A B]. apply B. apply (ci_SR _ _ _ _ _ (rinv g R) A).
+    intros R [A B]. apply B. apply (ci_SR _ _ _ _ _ _ (rinv g R) A).
   Qed.
 
   (* the shared holders are exactly the readers parked at GOpenL *)
@@ -238,7 +270,7 @@ Section ConcProofs.
     NoDup (g_R g) /\
     (In t (g_R g) <-> exists ts k it, tget (g_thr g) t = Some ts /\ t_pc ts = GOpenL k it).
   Proof using cmp_refl cmp_eq cmp_antisym cmp_trans thr0_nodup cas0_sorted cas0_named NoCollideC.
-    intros R. destruct (ci_R _ _ _ _ _ (rinv g R)) as [ND HR]. split; [exact ND|].
+    intros R. destruct (ci_R _ _ _ _ _ _ (rinv g R)) as [ND HR]. split; [exact ND|].
     rewrite HR. split.
     - intros (ts & G & Hh). destruct (t_pc ts) eqn:Hpc; try discriminate.
       exists ts, k, it. split; assumption.
@@ -254,15 +286,15 @@ Section ConcProofs.
     assert (AI : holdsI (t_pc ts) = true <-> g_I g = Some t).
     { split.
       - intros Hh. eapply holder_I; eassumption.
-      - intros E. apply (ci_lockI _ _ _ _ _ I) in E. destruct E as (ts' & G & Hh).
+      - intros E. apply (ci_lockI _ _ _ _ _ _ I) in E. destruct E as (ts' & G & Hh).
         rewrite Ht in G. inversion G; subst. exact Hh. }
     assert (AS : holdsS (t_pc ts) = true <-> g_S g = Some t).
     { split.
       - intros Hh. eapply holder_S; eassumption.
-      - intros E. apply (ci_lockS _ _ _ _ _ I) in E. destruct E as (ts' & G & Hh).
+      - intros E. apply (ci_lockS _ _ _ _ _ _ I) in E. destruct E as (ts' & G & Hh).
         rewrite Ht in G. inversion G; subst. exact Hh. }
     assert (AR : holdsR (t_pc ts) = true <-> In t (g_R g)).
-    { rewrite (proj2 (ci_R _ _ _ _ _ I) t). split.
+    { rewrite (proj2 (ci_R _ _ _ _ _ _ I) t). split.
       - intros Hh. exists ts. split; assumption.
       - intros (ts' & G & Hh). rewrite Ht in G. inversion G; subst. exact Hh. }
     rewrite <- AI, <- AS, <- AR. unfold holds.
@@ -278,7 +310,7 @@ Section ConcProofs.
     exists l, hd_error (acquires (t_pc ts)) = Some l /\ blocked g (t_pc ts) l = true.
   Proof using cmp_refl cmp_eq cmp_antisym cmp_trans thr0_nodup cas0_sorted cas0_named NoCollideC.
     intros R Ht. pose proof (rinv g R) as I.
-    destruct (ci_pc _ _ _ _ _ I _ _ Ht) as [Pt _].
+    destruct (ci_pc _ _ _ _ _ _ I _ _ Ht) as [Pt _].
     unfold cstep. rewrite Ht. unfold finished_t. revert Pt.
     destruct (t_pc ts) eqn:Hpc; cbn [pc_ok acquires hd_error]; intros Pt;
       try (solve [repeat (match goal with
@@ -297,7 +329,7 @@ Section ConcProofs.
       rewrite E. discriminate.
     - (* WUnlink *)
       destruct Pt as [NE _]. destruct todo as [|h rest]; [contradiction|].
-      destruct rest; discriminate.
+      destruct (bad h); [discriminate|]. destruct rest; discriminate.
     - (* WCkS *)
       destruct (free (g_S g)) eqn:F; cbn [andb].
       + destruct (noreaders g) eqn:NR; [discriminate|]. intros _.
@@ -323,7 +355,7 @@ Section ConcProofs.
   Corollary enabled_if_free g t ts : Reach g -> tget (g_thr g) t = Some ts ->
     finished_t ts = false ->
     (forall l, hd_error (acquires (t_pc ts)) = Some l -> blocked g (t_pc ts) l = false) ->
-    enabled H cmp nops g t = true.
+    enabled H cmp nops bad ckbad g t = true.
   Proof using cmp_refl cmp_eq cmp_antisym cmp_trans thr0_nodup cas0_sorted cas0_named NoCollideC.
     intros R Ht NF Fr. unfold enabled. destruct (step g t) eqn:E; [reflexivity|].
     destruct (acquires_sound g t ts R Ht E) as [F|(l & Hl & Tk)]; [congruence|].
@@ -339,19 +371,19 @@ Section ConcProofs.
 
   (* some thread can always move, unless every thread has finished *)
   Theorem C15_deadlock_free g : Reach g -> all_finished g = false ->
-    exists t, enabled H cmp nops g t = true.
+    exists t, enabled H cmp nops bad ckbad g t = true.
   Proof using cmp_refl cmp_eq cmp_antisym cmp_trans thr0_nodup cas0_sorted cas0_named NoCollideC.
     intros R NF. pose proof (rinv g R) as I.
     destruct (g_S g) as [u|] eqn:ES.
     { (* the exclusive holder of S is at WLockW or WCkW: its step only needs W *)
-      destruct (proj1 (ci_lockS _ _ _ _ _ I u) ES) as (tsu & G & Hh).
+      destruct (proj1 (ci_lockS _ _ _ _ _ _ I u) ES) as (tsu & G & Hh).
       exists u. apply (enabled_if_free g u tsu R G).
       - apply holding_not_finished. right; left; exact Hh.
       - intros l. destruct (t_pc tsu); cbn in Hh; try discriminate; cbn [acquires hd_error];
           intros E; inversion E; reflexivity. }
     destruct (g_R g) as [|u rs] eqn:ER.
     2:{ (* a reader holding S shared: its step needs nothing *)
-      destruct (proj1 (proj2 (ci_R _ _ _ _ _ I) u)) as (tsu & G & Hh);
+      destruct (proj1 (proj2 (ci_R _ _ _ _ _ _ I) u)) as (tsu & G & Hh);
         [rewrite ER; left; reflexivity|].
       exists u. apply (enabled_if_free g u tsu R G).
       - apply holding_not_finished. right; right; exact Hh.
@@ -360,7 +392,7 @@ Section ConcProofs.
     assert (NR : noreaders g = true) by (unfold noreaders; rewrite ER; reflexivity).
     destruct (g_I g) as [u|] eqn:EI.
     { (* S is entirely free: the holder of I needs S or nothing *)
-      destruct (proj1 (ci_lockI _ _ _ _ _ I u) EI) as (tsu & G & Hh).
+      destruct (proj1 (ci_lockI _ _ _ _ _ _ I u) EI) as (tsu & G & Hh).
       exists u. apply (enabled_if_free g u tsu R G).
       - apply holding_not_finished. left; exact Hh.
       - intros l. destruct (t_pc tsu); cbn in Hh; try discriminate; cbn [acquires hd_error];
@@ -374,7 +406,7 @@ Section ConcProofs.
       - exists p. split; [left; reflexivity|exact F]. }
     destruct EX as ([t ts] & Ip & Fp). cbn [snd] in Fp.
     exists t. apply (enabled_if_free g t ts R).
-    - apply In_tget; [apply (ci_nodup _ _ _ _ _ I)|exact Ip].
+    - apply In_tget; [apply (ci_nodup _ _ _ _ _ _ I)|exact Ip].
     - exact Fp.
     - intros l _. destruct l; cbn [blocked]; rewrite ?ES, ?EI, ?NR; cbn;
         rewrite ?andb_false_r; reflexivity.
@@ -424,7 +456,7 @@ Section ConcProofs.
   Lemma res_inv g : Reach g -> ResInv g.
   Proof using.
     intros [sched ->]. 
-    assert (A : forall s g0, ResInv g0 -> ResInv (crun H cmp nops g0 s)).
+    assert (A : forall s g0, ResInv g0 -> ResInv (crun H cmp nops bad ckbad g0 s)).
     { induction s as [|t s IH]; intros g0 I0; cbn [crun]; [exact I0|].
       destruct (step g0 t) as [g1|] eqn:St; [|apply IH, I0].
       apply IH. intros u tsu G.
@@ -450,7 +482,7 @@ Section ConcProofs.
                  H c = ihash it /\ len c = isize it.
   Proof using cmp_refl cmp_eq cmp_antisym cmp_trans thr0_nodup cas0_sorted cas0_named NoCollideC.
     intros R Ht St Ht' Hres. pose proof (rinv g R) as I.
-    destruct (ci_pc _ _ _ _ _ I _ _ Ht) as [Pt _].
+    destruct (ci_pc _ _ _ _ _ _ I _ _ Ht) as [Pt _].
     pose proof (res_inv g R _ _ Ht) as Pr.
     revert St. unfold cstep. rewrite Ht. revert Pt Pr.
     destruct (t_pc ts) eqn:Hpc; cbn [pc_ok pc_res_ok]; intros Pt Pr; head_destruct;
@@ -461,13 +493,15 @@ Section ConcProofs.
            cbn [length] in Hres; lia);
       try (apply app_inv_head in Hres; discriminate);
       try (apply app_inv_head in Hres; destruct size_only; discriminate);
-      try (apply app_inv_head in Hres; injection Hres as Hres; rewrite Hres in Pr; destruct Pr).
+      try (apply app_inv_head in Hres; injection Hres as Hres; rewrite Hres in Pr; destruct Pr);
+      try (destruct ckbad; apply app_inv_head in Hres; injection Hres as Hres;
+           [discriminate Hres|rewrite Hres in Pr; destruct Pr]).
     - (* GOpen *)
       apply app_inv_head in Hres. injection Hres as ->.
       exists k, it. split; [left; reflexivity|]. split; [assumption|].
       match goal with G : sm_get lex_cmp (g_cas g) (ihash it) = Some _ |- _ =>
-        apply (lex_get_in _ _ _ (ci_cas_sorted _ _ _ _ _ I)) in G;
-        destruct (ci_cas_named _ _ _ _ _ I _ _ G) as [Hh Ic] end.
+        apply (lex_get_in _ _ _ (ci_cas_sorted _ _ _ _ _ _ I)) in G;
+        destruct (ci_cas_named _ _ _ _ _ _ I _ _ G) as [Hh Ic] end.
       split; [exact Hh|].
       destruct Pt as (c0 & Ic0 & Hh0 & Hl0).
       assert (c0 = c) by (apply NoCollideC; try assumption; congruence).
@@ -514,12 +548,12 @@ Section ConcProofs.
     exists c, sm_get lex_cmp (g_cas g) (ihash it) = Some c /\ H c = ihash it /\ len c = isize it.
   Proof using cmp_refl cmp_eq cmp_antisym cmp_trans thr0_nodup cas0_sorted cas0_named NoCollideC.
     intros R Ht Hpc. pose proof (rinv g R) as I.
-    destruct (ci_pc _ _ _ _ _ I _ _ Ht) as [Pt _]. rewrite Hpc in Pt. cbn [pc_ok] in Pt.
+    destruct (ci_pc _ _ _ _ _ _ I _ _ Ht) as [Pt _]. rewrite Hpc in Pt. cbn [pc_ok] in Pt.
     assert (IR : In t (g_R g)).
-    { apply (proj2 (ci_R _ _ _ _ _ I) t). exists ts. split; [exact Ht|rewrite Hpc; reflexivity]. }
+    { apply (proj2 (ci_R _ _ _ _ _ _ I) t). exists ts. split; [exact Ht|rewrite Hpc; reflexivity]. }
     split; [exact IR|]. split.
     - destruct (g_S g) eqn:ES; [|reflexivity]. exfalso.
-      assert (E : g_R g = []) by (apply (ci_SR _ _ _ _ _ I); rewrite ES; discriminate).
+      assert (E : g_R g = []) by (apply (ci_SR _ _ _ _ _ _ I); rewrite ES; discriminate).
       rewrite E in IR. destruct IR.
     - split; [exact Pt|]. apply (C04_no_dangling g R _ _ Pt).
   Qed.
@@ -533,7 +567,7 @@ Section ConcProofs.
     In CMissing (t_res ts') -> In CMissing (t_res ts).
   Proof using cmp_refl cmp_eq cmp_antisym cmp_trans thr0_nodup cas0_sorted cas0_named NoCollideC.
     intros R Ht St Ht' Hin. pose proof (rinv g R) as I.
-    destruct (ci_pc _ _ _ _ _ I _ _ Ht) as [Pt _].
+    destruct (ci_pc _ _ _ _ _ _ I _ _ Ht) as [Pt _].
     pose proof (res_inv g R _ _ Ht) as Pr.
     revert St. unfold cstep. rewrite Ht. revert Pt Pr.
     destruct (t_pc ts) eqn:Hpc; cbn [pc_ok pc_res_ok]; intros Pt Pr; head_destruct;
@@ -544,7 +578,8 @@ Section ConcProofs.
       (apply in_app_or in Hin; destruct Hin as [Hin|[Hin|[]]]; [exact Hin|exfalso]);
       try discriminate;
       try (destruct size_only; discriminate);
-      try (rewrite Hin in Pr; exact Pr).
+      try (rewrite Hin in Pr; exact Pr);
+      try (destruct ckbad; [discriminate Hin|rewrite Hin in Pr; exact Pr]).
     destruct (C04_no_dangling g R _ _ Pt) as (c1 & G1 & _). congruence.
   Qed.
 
@@ -554,7 +589,7 @@ Section ConcProofs.
     intros [sched ->].
     assert (A : forall s g0, Reach g0 ->
                 (forall t ts, tget (g_thr g0) t = Some ts -> ~ In CMissing (t_res ts)) ->
-                forall t ts, tget (g_thr (crun H cmp nops g0 s)) t = Some ts ->
+                forall t ts, tget (g_thr (crun H cmp nops bad ckbad g0 s)) t = Some ts ->
                              ~ In CMissing (t_res ts)).
     { induction s as [|u s IH]; intros g0 R0 P0; cbn [crun]; [exact P0|].
       destruct (step g0 u) as [g1|] eqn:St; [|apply IH; assumption].
@@ -562,6 +597,51 @@ Section ConcProofs.
       intros t ts G Hin. destruct (Nat.eq_dec t u) as [->|N].
       - destruct (tget (g_thr g0) u) as [ts0|] eqn:Ht0.
         + apply (P0 _ _ Ht0). eapply cstep_no_missing; eassumption.
+        + unfold cstep in St. rewrite Ht0 in St. discriminate.
+      - rewrite (cstep_frame_other _ _ _ _ St N) in G. apply (P0 _ _ G Hin). }
+    apply A; [apply reachable_init|].
+    intros t ts G. apply tget_init in G. destruct G as (cs & _ & ->). intros [].
+  Qed.
+
+  (* without faults no call ever returns the I/O error: the pc PDropI is unreachable
+     (pc_ok: it is only entered when the rename target is obstructed), no unlink or open
+     fails, and the results carried by the write path are never CErr (res_inv) *)
+  Lemma cstep_no_err g t ts g' ts' : (forall h, bad h = false) -> ckbad = false -> Reach g ->
+    tget (g_thr g) t = Some ts -> step g t = Some g' -> tget (g_thr g') t = Some ts' ->
+    In CErr (t_res ts') -> In CErr (t_res ts).
+  Proof using cmp_refl cmp_eq cmp_antisym cmp_trans thr0_nodup cas0_sorted cas0_named NoCollideC.
+    intros NB NC R Ht St Ht' Hin. pose proof (rinv g R) as I.
+    destruct (ci_pc _ _ _ _ _ _ I _ _ Ht) as [Pt _].
+    pose proof (res_inv g R _ _ Ht) as Pr.
+    revert St. unfold cstep. rewrite Ht. revert Pt Pr.
+    destruct (t_pc ts) eqn:Hpc; cbn [pc_ok pc_res_ok]; intros Pt Pr; head_destruct;
+      try discriminate;
+      intros E; injection E as <-; unfold finish, set_pc in Ht'; cbn [g_thr] in Ht';
+      rewrite tget_tset_same in Ht'; injection Ht' as <-; cbn [t_res] in Hin;
+      try exact Hin;
+      (apply in_app_or in Hin; destruct Hin as [Hin|[Hin|[]]]; [exact Hin|exfalso]);
+      try discriminate;
+      try (destruct size_only; discriminate);
+      try (rewrite Hin in Pr; exact Pr);
+      try (rewrite NC in Hin; rewrite Hin in Pr; exact Pr);
+      try (rewrite NB in Pt; discriminate Pt);
+      try (match goal with Hb : bad _ = true |- _ => rewrite NB in Hb; discriminate Hb end).
+  Qed.
+
+  Theorem no_faults_no_errors g : (forall h, bad h = false) -> ckbad = false -> Reach g ->
+    forall t ts, tget (g_thr g) t = Some ts -> ~ In CErr (t_res ts).
+  Proof using cmp_refl cmp_eq cmp_antisym cmp_trans thr0_nodup cas0_sorted cas0_named NoCollideC.
+    intros NB NC [sched ->].
+    assert (A : forall s g0, Reach g0 ->
+                (forall t ts, tget (g_thr g0) t = Some ts -> ~ In CErr (t_res ts)) ->
+                forall t ts, tget (g_thr (crun H cmp nops bad ckbad g0 s)) t = Some ts ->
+                             ~ In CErr (t_res ts)).
+    { induction s as [|u s IH]; intros g0 R0 P0; cbn [crun]; [exact P0|].
+      destruct (step g0 u) as [g1|] eqn:St; [|apply IH; assumption].
+      apply IH; [eapply reachable_step; eassumption|].
+      intros t ts G Hin. destruct (Nat.eq_dec t u) as [->|N].
+      - destruct (tget (g_thr g0) u) as [ts0|] eqn:Ht0.
+        + apply (P0 _ _ Ht0). eapply cstep_no_err; eassumption.
         + unfold cstep in St. rewrite Ht0 in St. discriminate.
       - rewrite (cstep_frame_other _ _ _ _ St N) in G. apply (P0 _ _ G Hin). }
     apply A; [apply reachable_init|].
@@ -579,22 +659,46 @@ Section ConcProofs.
     unfold finished_t in AF. destruct (t_pc ts); try discriminate. reflexivity.
   Qed.
 
+  (* the half that needs no side condition: every referenced hash has its blob (C04) *)
+  Lemma C07_nothing_less g : Reach g ->
+    forall h, (exists k it, In (k, it) (km (g_idx g)) /\ ihash it = h) ->
+              sm_get lex_cmp (g_cas g) h <> None.
+  Proof using cmp_refl cmp_eq cmp_antisym cmp_trans thr0_nodup cas0_sorted cas0_named NoCollideC.
+    intros R h (k & it & Ii & <-). pose proof (rinv g R) as I.
+    destruct (ci_nodangling _ _ _ _ _ _ I _ _ Ii) as (c & Gc & _). congruence.
+  Qed.
+
+  (* a blob that nobody references can only survive quiescence when a deletion (or a rename)
+     has failed: then some path is obstructed AND some call has returned an error.  So the
+     directory is exact when no path is obstructed, and also in every run in which no call
+     returned an error (ckbad plays no role: a failed checkpoint leaves no blob behind) *)
   Theorem C07_quiescent_exact g : cas0 = [] -> Reach g -> all_finished g = true ->
+    (forall h, bad h = false) \/
+    (forall t ts, tget (g_thr g) t = Some ts -> ~ In CErr (t_res ts)) ->
     forall h, sm_get lex_cmp (g_cas g) h <> None <->
               exists k it, In (k, it) (km (g_idx g)) /\ ihash it = h.
   Proof using cmp_refl cmp_eq cmp_antisym cmp_trans thr0_nodup cas0_sorted cas0_named NoCollideC.
-    intros E0 R AF h. pose proof (rinv g R) as I. split.
+    intros E0 R AF NF h. pose proof (rinv g R) as I. split.
     - intros G. destruct (sm_get lex_cmp (g_cas g) h) as [c|] eqn:Gc; [|contradiction].
-      destruct (ci_accounted _ _ _ _ _ I _ _ Gc) as [A|[A|[(u & tsu & Gu & P)|A]]].
+      destruct (ci_accounted _ _ _ _ _ _ I _ _ Gc)
+        as [A|[A|[(u & tsu & Gu & P)|[A|((x & Bx) & u & tsu & Gu & P)]]]].
       + apply count_pos_ex, A.
-      + exfalso. apply A. apply (rcrep_none _ _ _ (ci_intents _ _ _ _ _ I)).
+      + exfalso. apply A. apply (rcrep_none _ _ _ (ci_intents _ _ _ _ _ _ I)).
         apply intents_zero. intros u s Iu. unfold all_finished in AF.
         rewrite forallb_forall in AF. specialize (AF _ Iu). cbn [snd] in AF.
         unfold finished_t in AF. destruct (t_pc s); try discriminate. reflexivity.
       + rewrite (all_finished_idle _ _ _ AF Gu) in P. destruct P.
       + rewrite E0 in A. destruct A.
-    - intros (k & it & Ii & <-).
-      destruct (ci_nodangling _ _ _ _ _ I _ _ Ii) as (c & Gc & _). congruence.
+      + exfalso. destruct NF as [NF|NF]; [rewrite NF in Bx; discriminate|exact (NF _ _ Gu P)].
+    - apply C07_nothing_less, R.
+  Qed.
+
+  Corollary C07_quiescent_exact_nofaults g : cas0 = [] -> Reach g -> all_finished g = true ->
+    (forall h, bad h = false) ->
+    forall h, sm_get lex_cmp (g_cas g) h <> None <->
+              exists k it, In (k, it) (km (g_idx g)) /\ ihash it = h.
+  Proof using cmp_refl cmp_eq cmp_antisym cmp_trans thr0_nodup cas0_sorted cas0_named NoCollideC.
+    intros E0 R AF NF. apply C07_quiescent_exact; auto.
   Qed.
 
 End ConcProofs.
@@ -612,6 +716,9 @@ Print Assumptions C05_read_returns_indexed_content.
 Print Assumptions C05_lookup_step.
 Print Assumptions C05_retry_sees_current.
 Print Assumptions C05_read_never_fails.
+Print Assumptions no_faults_no_errors.
 Print Assumptions S_excludes_readers.
 Print Assumptions readers_sound.
+Print Assumptions C07_nothing_less.
 Print Assumptions C07_quiescent_exact.
+Print Assumptions C07_quiescent_exact_nofaults.
